@@ -302,8 +302,11 @@ namespace cnl {
     public:
         [[nodiscard]] constexpr auto operator()(Input const& from) const
         {
-            // TODO: unsigned specialization
-            return static_cast<result>(from);
+            // truncate, then step down where truncation rounded up
+            auto const truncated{static_cast<result>(from)};
+            return (static_cast<Input>(truncated) > from)
+                         ? _impl::from_rep<result>(static_cast<ResultRep>(_impl::to_rep(truncated) - 1))
+                         : truncated;
         }
     };
 
